@@ -17,7 +17,7 @@ RULE = (
     "polynomial boundary integral of the reference (Fractions for rational data) summed over the boundary curves. "
     "Rational polygons must give the exact rational (type int/Fraction); float polygons 1e-11 relative to the sum "
     "of absolute piece contributions; curved boundaries exact-to-rounding where the integrand degree is within the "
-    "degree of exactness of the documented node count (always for the area), only gross errors (25 % of the absolute "
+    "degree of exactness of the documented node count (always for the area), only gross errors for a+b <= 6 (25 % of the absolute "
     "contributions) otherwise, and 1e-9 when nnodes is raised to cover the integrand. An evaluation is one (shape, a, b, entry "
     "point); it is non-trivial when (a,b) != (0,0) or the shape has several boundary curves or a curved segment."
 )
@@ -112,7 +112,12 @@ def judge(ctx, case):
                 # 6e-3 of the absolute contributions at a+b = 4 on cubics): only
                 # gross errors are judged here; the raised-nnodes check decides
                 tol = (1e-11 if exact_rule else 0.25) * scale
-                if abs(float(got) - float(ref)) > tol:
+                if not exact_rule and a + b > 6:
+                    # the 25 % bound was measured for a+b <= 6; beyond, the
+                    # default rule (open Newton-Cotes, 14+ nodes on an
+                    # integrand of degree 17..29) is only counted
+                    ctx.count("default-rule-not-judged(a+b>6)")
+                elif abs(float(got) - float(ref)) > tol:
                     ctx.violation("integral", "curved-exact" if exact_rule else "curved-quadrature", sub,
                                   "%s(%d,%d) = %r, reference %r, tol %r" % (name, a, b, float(got), float(ref), tol), kind)
         # raised node count: the rule covers the integrand -> exact to rounding
